@@ -42,6 +42,13 @@ def gateOpen (regs : Regs) (r : Int) (toks : List Tok) : Bool :=
 
 def wrapNot (isNot : Bool) (e : AST) : AST := if isNot then .unary notName e else e
 
+/-- The postfix loop of `parse_primary`: every postfix operator that follows belongs to the operand. -/
+def parsePostfix (regs : Regs) (lim : Nat) : AST → Nat → List Tok → PR
+  | lhs, h, .op o :: r1 =>
+    if regs.isPostfix o then (node lim h).bind fun h' => parsePostfix regs lim (.postfix lhs o) h' r1
+    else .ok (lhs, h, .op o :: r1)
+  | lhs, h, toks => .ok (lhs, h, toks)
+
 mutual
 
 /-- `parse_token` (with `parse_unary`, `parse_delim`, `parse_open_paren` inlined). -/
@@ -86,17 +93,12 @@ def parseToken (regs : Regs) (lim : Nat) (fuel : Nat) (d : Nat) (toks : List Tok
     | .semi :: _ => .err .unexpectedToken
 termination_by structural fuel
 
-/-- `parse_primary`: a token-level expression with at most one postfix operator. -/
+/-- `parse_primary`: a token-level expression followed by any number of postfix operators. -/
 def parsePrimary (regs : Regs) (lim : Nat) (fuel : Nat) (d : Nat) (toks : List Tok) : PR :=
   match fuel with
   | 0 => .hang
   | fuel + 1 =>
-    (parseToken regs lim fuel d toks).bind fun (lhs, h, r) =>
-    match r with
-    | .op o :: r1 =>
-      if regs.isPostfix o then (node lim h).bind fun h' => .ok (.postfix lhs o, h', r1)
-      else .ok (lhs, h, r)
-    | _ => .ok (lhs, h, r)
+    (parseToken regs lim fuel d toks).bind fun (lhs, h, r) => parsePostfix regs lim lhs h r
 termination_by structural fuel
 
 /-- `parse_expression`. -/
